@@ -23,6 +23,11 @@ Split-container phase: the small hierarchies are also emitted with one DIAG-LAYE
 PARENT-REFs across documents, added parents-first and children-first; each must give the model's views and what the
 single-document database shows.
 
+Isolation: the workers enumerate, predict and emit; every database load (and every edit sequence) executes in a forked
+child of the worker (mcx.core.isolated), and so does replay(): an outcome is a function of the case alone.  Sequence
+phase: every configuration with a predicted clash is evaluated twice in one process (refresh() again after the error,
+and the same description in a second database); the later outcomes must equal the first.
+
 Re-resolution phase: for the small spaces every loaded hierarchy is refreshed again (idempotence) and then, for every
 single edit of a menu applied to the loaded object graph (drop the objects of one placement from a layer's raw
 data, drop one PARENT-REF, add one NOT-INHERITED entry), Database.refresh() must produce what the model says
@@ -37,7 +42,7 @@ import shutil
 import tempfile
 from typing import Any, Dict, Iterator, List, Optional, Sequence, Tuple
 
-from mcx.core import Ctx, Part, digest, jdump, pmap
+from mcx.core import Ctx, Part, digest, isolated, jdump, pmap
 from odxmodel import emit_hier as eh
 from odxmodel import refinherit as ri
 
@@ -173,7 +178,7 @@ class Loader:
     def load(self, cases: List[Dict[str, Any]]) -> Any:
         return self.load_files(eh.database_files(cases))
 
-    def load_files(self, files: Dict[str, str]) -> Any:
+    def load_files(self, files: Dict[str, str], refresh: bool = True) -> Any:
         import odxtools.exceptions
         from odxtools.database import Database
         odxtools.exceptions.strict_mode = True
@@ -196,7 +201,8 @@ class Loader:
                     os.unlink(p)
                 except OSError:
                     pass
-        db.refresh()
+        if refresh:
+            db.refresh()
         return db
 
 
@@ -548,7 +554,100 @@ def configurations(types: Sequence[str], parents: Sequence[Sequence[int]], k: in
 # ---------------------------------------------------------------------------------------------
 # work units
 # ---------------------------------------------------------------------------------------------
+def _bookkeeping(part: Part, case: Dict[str, Any], preds: List[Dict[str, Any]], outcome: str) -> None:
+    part.count("evaluations")
+    part.count("hierarchies_" + outcome)
+    d = outcome_digest(case, preds, outcome)
+    if d is not None:
+        part.add("nontrivial", d)
+    for t in ri.shape_tags(case["types"], case["parents"]):
+        part.add("shapes", t)
+    part.add("layer_counts", len(case["types"]))
+    for c in case["cats"]:
+        part.add("categories", c)
+    if outcome == "loaded":
+        for i, ps in enumerate(case["parents"]):
+            for p_ in ps:
+                for ni in range(len(case["names"])):
+                    if {case["place"][i][ni], case["place"][p_][ni]} == {1, 4}:
+                        part.count("cross_kind_overrides")
+    if any(3 in row for row in case["place"]):
+        part.count("cases_with_value_equal_objects")
+        for i, ps in enumerate(case["parents"]):
+            for a, b in itertools.combinations(ps, 2):
+                for ni in range(len(case["names"])):
+                    if case["types"][a] == case["types"][b] and case["place"][a][ni] == 3 == case["place"][b][ni] \
+                            and not case["place"][i][ni] and outcome == "loaded":
+                        part.count("value_equal_objects_from_equal_priority_parents_loaded")
+    if case["excl"]:
+        part.count("cases_with_exclusions")
+    if len(case["excl_lists"]) < len(eh.EXCL_LISTS):
+        part.count("cases_with_partial_exclusion_lists")
+
+
+def _note_rank(part: Part, case: Dict[str, Any], info: Dict[str, Any]) -> None:
+    # which rank of shared data the tree implements must be the same everywhere (checked in run())
+    r = info.get("esd_only")
+    if r is not None:
+        part.count("databases_fitting_shared_data_" + r + "_only")
+        if "esd_only_" + r not in part.sets:
+            part.add("esd_only_" + r, jdump(case))
+
+
+def _evaluate_single(part: Part, loader: Loader, case: Dict[str, Any], preds: List[Dict[str, Any]]) -> None:
+    info: Dict[str, Any] = {}
+    probs, outcome = run_single(loader, case, part, info)
+    _note_rank(part, case, info)
+    for key, detail in probs:
+        part.violation(key, case, detail)
+    _bookkeeping(part, case, preds, outcome)
+    part.count("databases_loaded")
+
+
+def evaluate_items(loader: Loader, items: List[Tuple[Dict[str, Any], List[Dict[str, Any]]]], files: Dict[str, str]) -> Part:
+    """Runs in a forked child of a worker that never executes library code itself (mcx.core.isolated): one case
+    with a predicted clash, or a batch of cases that are all predicted to load, in one database."""
+    part = Part()
+    if len(items) == 1:
+        _evaluate_single(part, loader, items[0][0], items[0][1])
+        return part
+    cases = [c for c, _ in items]
+    try:
+        db = loader.load_files(files)
+    except Exception:  # noqa -- some member fails although none should: find it
+        for c, p in items:
+            _evaluate_single(part, loader, c, p)
+        return part
+    part.count("databases_loaded")
+    for slot, (c, p) in enumerate(items):
+        prefix = f"k{slot}_"
+        info: Dict[str, Any] = {}
+        probs = judge_loaded(c, p, db, prefix, part, info)
+        _note_rank(part, c, info)
+        if probs:
+            # believe a batched finding only if the hierarchy alone shows it too
+            probs1, outcome1 = run_single(loader, c, None)
+            keys1 = {k for k, _ in probs1}
+            for key, detail in probs1:
+                part.violation(key, c, detail)
+            for key, detail in probs:
+                if key not in keys1:
+                    part.violation("C09/batch/finding-only-in-shared-database", {"batch": cases, "slot": slot}, f"{key}: {detail}")
+        _bookkeeping(part, c, p, "loaded")
+    return part
+
+
+def _merge_child(part: Part, sub: Part) -> None:
+    part.merge(sub)
+    for r in ("highest", "lowest"):  # one example per unit is enough
+        ex = part.sets.get("esd_only_" + r)
+        if ex and len(ex) > 1:
+            part.sets["esd_only_" + r] = {min(ex, key=lambda x: (len(x), x))}
+
+
 def explore_unit(unit: Tuple[Any, ...]) -> Part:
+    """Enumerates the cases of one (hierarchy, shard) and emits their XML; everything that executes library code
+    happens in forked children (one per database), so that no outcome depends on what the process did before."""
     types, parents, k, kinds, skew, full, max_excl, shard, nshards = unit[:9]
     require = unit[9] if len(unit) > 9 else None
     part = Part()
@@ -556,85 +655,9 @@ def explore_unit(unit: Tuple[Any, ...]) -> Part:
     try:
         batch: List[Tuple[Dict[str, Any], List[Dict[str, Any]]]] = []
 
-        def report(case: Dict[str, Any], probs: List[Tuple[str, str]]) -> None:
-            for key, detail in probs:
-                part.violation(key, case, detail)
-
-        def finish(case: Dict[str, Any], preds: List[Dict[str, Any]], outcome: str) -> None:
-            part.count("evaluations")
-            part.count("hierarchies_" + outcome)
-            d = outcome_digest(case, preds, outcome)
-            if d is not None:
-                part.add("nontrivial", d)
-            for t in ri.shape_tags(case["types"], case["parents"]):
-                part.add("shapes", t)
-            part.add("layer_counts", len(case["types"]))
-            for c in case["cats"]:
-                part.add("categories", c)
-            if outcome == "loaded":
-                for i, ps in enumerate(case["parents"]):
-                    for p_ in ps:
-                        for ni in range(len(case["names"])):
-                            if {case["place"][i][ni], case["place"][p_][ni]} == {1, 4}:
-                                part.count("cross_kind_overrides")
-            if any(3 in row for row in case["place"]):
-                part.count("cases_with_value_equal_objects")
-                for i, ps in enumerate(case["parents"]):
-                    for a, b in itertools.combinations(ps, 2):
-                        for ni in range(len(case["names"])):
-                            if case["types"][a] == case["types"][b] and case["place"][a][ni] == 3 == case["place"][b][ni] \
-                                    and not case["place"][i][ni] and outcome == "loaded":
-                                part.count("value_equal_objects_from_equal_priority_parents_loaded")
-            if case["excl"]:
-                part.count("cases_with_exclusions")
-            if len(case["excl_lists"]) < len(eh.EXCL_LISTS):
-                part.count("cases_with_partial_exclusion_lists")
-
-        def note_rank(case: Dict[str, Any], info: Dict[str, Any]) -> None:
-            # which rank of shared data the tree implements must be the same everywhere (checked in run())
-            r = info.get("esd_only")
-            if r is not None:
-                part.count("databases_fitting_shared_data_" + r + "_only")
-                if "esd_only_" + r not in part.sets:
-                    part.add("esd_only_" + r, jdump(case))
-
-        def single(case: Dict[str, Any], preds: List[Dict[str, Any]]) -> None:
-            info: Dict[str, Any] = {}
-            probs, outcome = run_single(loader, case, part, info)
-            note_rank(case, info)
-            report(case, probs)
-            finish(case, preds, outcome)
-            part.count("databases_loaded")
-
-        def flush() -> None:
-            if not batch:
-                return
-            cases = [c for c, _ in batch]
-            files = eh.database_files(cases)
-            try:
-                db = loader.load_files(files)
-            except Exception:  # noqa -- some member fails although none should: find it
-                for c, p in batch:
-                    single(c, p)
-                batch.clear()
-                return
-            part.count("databases_loaded")
-            for slot, (c, p) in enumerate(batch):
-                prefix = f"k{slot}_" if len(cases) > 1 else ""
-                info: Dict[str, Any] = {}
-                probs = judge_loaded(c, p, db, prefix, part, info)
-                note_rank(c, info)
-                if probs:
-                    # believe a batched finding only if the hierarchy alone shows it too
-                    probs1, outcome1 = run_single(loader, c, None)
-                    keys1 = {k for k, _ in probs1}
-                    report(c, probs1)
-                    for key, detail in probs:
-                        if key not in keys1:
-                            part.violation("C09/batch/finding-only-in-shared-database",
-                                           {"batch": cases, "slot": slot}, f"{key}: {detail}")
-                finish(c, p, "loaded")
-            batch.clear()
+        def go(items: List[Tuple[Dict[str, Any], List[Dict[str, Any]]]]) -> None:
+            if items:
+                _merge_child(part, isolated(evaluate_items, loader, list(items), eh.database_files([c for c, _ in items])))
 
         idx = 0
         for case in configurations(types, parents, k, kinds, skew, full, max_excl, require):
@@ -646,12 +669,13 @@ def explore_unit(unit: Tuple[Any, ...]) -> Part:
                 part.sample({"case": case, "expected_service_view_per_layer": [v.get("svc") for v in preds[0]["views"]],
                              "unresolved_clashes": preds[0]["conflicts"], "readings": len(preds)}, limit=1)
             if any(p["conflicts"] for p in preds):
-                single(case, preds)
+                go([(case, preds)])
             else:
                 batch.append((case, preds))
                 if len(batch) >= BATCH:
-                    flush()
-        flush()
+                    go(batch)
+                    batch = []
+        go(batch)
     finally:
         loader.close()
     return part
@@ -726,16 +750,22 @@ def parent_view_problems(loader: Loader, case: Dict[str, Any], part: Optional[Pa
     return out
 
 
+def _parent_case(loader: Loader, case: Dict[str, Any]) -> Part:
+    part = Part()
+    probs = parent_view_problems(loader, case, part)
+    part.count("parent_view_cases")
+    for key, detail in probs:
+        part.violation(key, dict(case, mode="parent-view"), detail)
+    return part
+
+
 def parent_unit(unit: Tuple[Any, ...]) -> Part:
     types, parents, k, kinds = unit
     part = Part()
     loader = Loader()
     try:
         for case in configurations(types, parents, k, kinds, skew=False):
-            probs = parent_view_problems(loader, case, part)
-            part.count("parent_view_cases")
-            for key, detail in probs:
-                part.violation(key, dict(case, mode="parent-view"), detail)
+            part.merge(isolated(_parent_case, loader, case))
     finally:
         loader.close()
     return part
@@ -899,6 +929,11 @@ def refresh_problems(loader: Loader, case: Dict[str, Any], edits: List[List[Any]
     return out
 
 
+def _refresh_case(loader: Loader, case: Dict[str, Any], edits: List[List[Any]], differential: bool) -> Tuple[List[Tuple[int, str, str]], Part]:
+    sub = Part()
+    return refresh_problems(loader, case, edits, sub, differential), sub
+
+
 def refresh_unit(unit: Tuple[Any, ...]) -> Part:
     types, parents, k, kinds, full, differential, require = unit
     part = Part()
@@ -906,7 +941,8 @@ def refresh_unit(unit: Tuple[Any, ...]) -> Part:
     try:
         for case in configurations(types, parents, k, kinds, False, full, None, require):
             edits = [["none"]] + edit_menu(case)
-            found = refresh_problems(loader, case, edits, part, differential)
+            found, sub = isolated(_refresh_case, loader, case, edits, differential)
+            part.merge(sub)
             part.count("refresh_cases")
             done = set()
             for ei, key, detail in found:
@@ -916,7 +952,7 @@ def refresh_unit(unit: Tuple[Any, ...]) -> Part:
                 # a finding of the edit sequence is reported for the single edit (on a database that was used:
                 # refreshed and probed once before the edit) if that alone shows it
                 single = [["none"]] + ([edits[ei]] if ei else [])
-                alone = refresh_problems(loader, case, single, None)
+                alone = isolated(refresh_problems, loader, case, single, None)
                 if any(k2 == key for _, k2, _ in alone):
                     part.violation(key, {"mode": "refresh", "case": case, "edits": single}, detail)
                 else:
@@ -973,14 +1009,74 @@ def split_problems(loader: Loader, case: Dict[str, Any], orders: List[str], part
     return out
 
 
+def _split_case(loader: Loader, case: Dict[str, Any]) -> Part:
+    part = Part()
+    for order, key, detail in split_problems(loader, case, list(ORDERS), part):
+        part.violation(key, {"mode": "split", "case": case, "order": order}, detail)
+    return part
+
+
 def split_unit(unit: Tuple[Any, ...]) -> Part:
     types, parents, k, kinds = unit
     part = Part()
     loader = Loader()
     try:
         for case in configurations(types, parents, k, kinds, False, False):
-            for order, key, detail in split_problems(loader, case, list(ORDERS), part):
-                part.violation(key, {"mode": "split", "case": case, "order": order}, detail)
+            part.merge(isolated(_split_case, loader, case))
+    finally:
+        loader.close()
+    return part
+
+
+# ---------------------------------------------------------------------------------------------
+# sequences: the outcome of an evaluation must not depend on earlier evaluations in the same process
+# ---------------------------------------------------------------------------------------------
+def _refresh_outcome(db: Any, case: Dict[str, Any]) -> Tuple[str, Any]:
+    try:
+        db.refresh()
+    except Exception as e:  # noqa
+        return "error", type(e).__name__
+    return "loaded", full_observation(db, case, "", list(range(len(case["types"]))))
+
+
+def sequence_problems(loader: Loader, case: Dict[str, Any], part: Optional[Part]) -> List[Tuple[str, str]]:
+    """In ONE process: load the case; if that raised, call refresh() on the same database again; then load the same
+    description into a second database.  Every later outcome must equal the first one."""
+    files = eh.database_files([case])
+    db = loader.load_files(files, refresh=False)
+    first = _refresh_outcome(db, case)
+    steps = []
+    if first[0] == "error":
+        steps.append(("refresh-again-after-the-error", _refresh_outcome(db, case)))
+    steps.append(("same-description-in-a-second-database", _refresh_outcome(loader.load_files(files, refresh=False), case)))
+    out = []
+    for name, oc in steps:
+        if part is not None:
+            part.count("sequence_evaluations")
+            part.count("sequence_first_" + first[0])
+        if oc != first:
+            def short(o: Tuple[str, Any]) -> str:
+                return f"raised {o[1]}" if o[0] == "error" else "loaded, services per layer " + str([x.get("svc") for x in o[1]])
+            out.append((f"C09/sequence/second-evaluation-differs/{name}",
+                        f"first evaluation: {short(first)}; {name}: {short(oc)}"))
+    return out
+
+
+def _sequence_case(loader: Loader, case: Dict[str, Any]) -> Part:
+    part = Part()
+    for key, detail in sequence_problems(loader, case, part):
+        part.violation(key, {"mode": "sequence", "case": case}, detail)
+    return part
+
+
+def sequence_unit(unit: Tuple[Any, ...]) -> Part:
+    types, parents, k, kinds = unit
+    part = Part()
+    loader = Loader()
+    try:
+        for case in configurations(types, parents, k, kinds, False, False):
+            if any(p["conflicts"] for p in predict(case)):
+                part.merge(isolated(_sequence_case, loader, case))
     finally:
         loader.close()
     return part
@@ -999,11 +1095,12 @@ def is_chain_or_diamond(types: Sequence[str], parents: Sequence[Sequence[int]]) 
     return "diamond" in tags or all(len(ps) <= 1 for ps in parents)
 
 
-def plan(quick: bool) -> Tuple[List[Tuple[Any, ...]], List[Tuple[Any, ...]], List[Tuple[Any, ...]], List[Tuple[Any, ...]], Dict[str, Any]]:
+def plan(quick: bool) -> Tuple[Any, ...]:
     units: List[Tuple[Any, ...]] = []
     punits: List[Tuple[Any, ...]] = []
     runits: List[Tuple[Any, ...]] = []
     sunits: List[Tuple[Any, ...]] = []
+    qunits: List[Tuple[Any, ...]] = []
     bounds: Dict[str, Any] = {}
     # xspaces: (n, k, kinds, required kind, max exclusions, shards) -- only the placements containing the required kind
     # rspaces: (n, k, kinds, 19 categories?, compare with a fresh load?, required kind)
@@ -1015,6 +1112,7 @@ def plan(quick: bool) -> Tuple[List[Tuple[Any, ...]], List[Tuple[Any, ...]], Lis
         rspaces = [(1, 2, (0, 1, 2, 3), True, True, None), (2, 2, (0, 1, 2, 3), True, True, None), (3, 1, (0, 1, 3), False, False, None),
                    (2, 2, (0, 1, 4), False, True, 4)]
         sspaces = [(2, 1, (0, 1, 4)), (3, 1, (0, 1))]
+        qspaces = [(3, 1, (0, 1, 2, 3, 4)), (3, 2, (0, 1)), (4, 1, (0, 1))]
     else:
         spaces = [(1, 2, (0, 1, 2, 3), True, True, 1), (2, 2, (0, 1, 2, 3), True, True, 1), (3, 1, (0, 1, 2, 3), True, True, 2),
                   (3, 2, (0, 1, 2), True, False, 16), (4, 1, (0, 1, 2, 3), False, False, 4), (4, 2, (0, 1), False, False, 0),
@@ -1025,6 +1123,7 @@ def plan(quick: bool) -> Tuple[List[Tuple[Any, ...]], List[Tuple[Any, ...]], Lis
         rspaces = [(1, 2, (0, 1, 2, 3), True, True, None), (2, 2, (0, 1, 2, 3), True, True, None), (3, 1, (0, 1, 2, 3), True, True, None),
                    (3, 2, (0, 1), False, True, None), (2, 2, (0, 1, 4), False, True, 4)]
         sspaces = [(2, 2, (0, 1, 3, 4)), (3, 1, (0, 1, 3, 4))]
+        qspaces = [(3, 1, (0, 1, 2, 3, 4)), (3, 2, (0, 1)), (4, 1, (0, 1, 2))]
     desc = []
     for n, k, kinds, skew, full, nsh in spaces:
         hs = ri.hierarchies(n)
@@ -1057,6 +1156,13 @@ def plan(quick: bool) -> Tuple[List[Tuple[Any, ...]], List[Tuple[Any, ...]], Lis
     for n, k, kinds in sspaces:
         for types, parents in ri.hierarchies(n):
             sunits.append((types, parents, k, kinds))
+    for n, k, kinds in qspaces:
+        for types, parents in ri.hierarchies(n):
+            qunits.append((types, parents, k, kinds))
+    bounds["sequence_phase"] = [f"{n} layers x {k} name(s), kinds {list(kinds)}: every case with a predicted unresolved clash, evaluated "
+                                f"twice in one process (refresh() again after the error; the same description in a second database)"
+                                for n, k, kinds in qspaces]
+    bounds["isolation"] = "every database load / edit sequence runs in a forked child of a worker that never executes library code"
     bounds["split_container_phase"] = [f"{n} layers x {k} name(s), kinds {list(kinds)}: one document per layer, PARENT-REFs with DOCREF, "
                                        f"documents added parents-first and children-first" for n, k, kinds in sspaces]
     for n, k, kinds, full, diff, req in rspaces:
@@ -1073,12 +1179,12 @@ def plan(quick: bool) -> Tuple[List[Tuple[Any, ...]], List[Tuple[Any, ...]], Lis
     bounds["categories_core"] = eh.ALL_CATS
     bounds["categories_all"] = eh.FULL_CATS
     bounds["batch"] = BATCH
-    return units, punits, runits, sunits, bounds
+    return units, punits, runits, sunits, qunits, bounds
 
 
 def run(ctx: Ctx) -> None:
     Loader.sweep()
-    units, punits, runits, sunits, bounds = plan(ctx.quick)
+    units, punits, runits, sunits, qunits, bounds = plan(ctx.quick)
     ctx.bounds = bounds
     ctx.rule = ("every hierarchy (up to renaming of layers) within the layer bound x every placement of the names x every "
                 "NOT-INHERITED set; non-trivial = distinct (hierarchy, per-layer source of every visible object, exclusions, "
@@ -1098,9 +1204,10 @@ def run(ctx: Ctx) -> None:
     pmap(ctx, parent_unit, punits)
     pmap(ctx, refresh_unit, runits)
     pmap(ctx, split_unit, sunits)
+    pmap(ctx, sequence_unit, qunits)
     c = ctx.counts
     c["evaluations"] = c.get("evaluations", 0) + c.get("parent_view_cases", 0) + c.get("refresh_evaluations", 0) + \
-        c.get("split_container_evaluations", 0)
+        c.get("split_container_evaluations", 0) + c.get("sequence_evaluations", 0)
     only_h = ctx.sets.pop("esd_only_highest", set())
     only_l = ctx.sets.pop("esd_only_lowest", set())
     if only_h and only_l:
@@ -1129,12 +1236,21 @@ def run(ctx: Ctx) -> None:
               and c.get("split_container_error", 0) > 0)
     ctx.guard("a job overriding an inherited service of the same short name (and vice versa) seen",
               c.get("cross_kind_overrides", 0) > 0)
+    ctx.guard("sequence phase: clash configurations evaluated twice in one process",
+              c.get("sequence_evaluations", 0) > 0 and c.get("sequence_first_error", 0) > 0)
     ctx.guard("three-valued cases are a minority", c.get("three_valued_cases", 0) * 2 < max(1, c.get("hierarchies_loaded", 0)))
 
 
 def replay(case: Any) -> List[Tuple[str, str]]:
+    """Re-executes one recorded case in a forked child, so that the verdict is a function of the case alone."""
+    return isolated(_replay, case)
+
+
+def _replay(case: Any) -> List[Tuple[str, str]]:
     loader = Loader()
     try:
+        if case.get("mode") == "sequence":
+            return sequence_problems(loader, case["case"], None)
         if "batch" in case:
             cases = case["batch"]
             slot = case["slot"]
